@@ -42,6 +42,10 @@ pub struct CloseParams {
     pub delay: u32,
     /// producers are joined before the drivers are even started (everything is buffered when the close call comes)
     pub late_drivers: bool,
+    /// `cancel_all_streams()` is called first (every stream is already told to end -- and may still be draining and
+    /// processing -- when the graceful, unbounded call comes)
+    #[serde(default)]
+    pub pre_cancel: bool,
 }
 
 struct LogFileGuard(Option<String>);
@@ -117,6 +121,16 @@ fn close_body(p: &CloseParams) {
             *c.probes.entry("harness.close_conc.events_in_a_consumers_hands_at_the_call").or_insert(0) += (released < yielded) as u64;
             *c.probes.entry("harness.close_conc.everything_already_processed_at_the_call").or_insert(0) += (accepted > 0 && released == expected) as u64;
         });
+    }
+    if p.pre_cancel {
+        ctx::trace(|| "cancel_all_streams() first".to_string());
+        ctx::fault_fired("streams_already_told_to_end_before_the_graceful_call");
+        ctx::op_mark(ctx::intern(format!("{}:cancel_all_streams", kind.name())));
+        ch.cancel_all();
+        ctx::op_mark("");
+        for _ in 0..(p.delay % 7) {
+            harness_point();
+        }
     }
     // ---- the call
     let call_inv = ctx::stamp();
@@ -244,7 +258,7 @@ impl Scenario for CloseConc {
         if kind != Kind::MultiMmapLog && rng.chance(1, 8) {
             sched.origin = u32::MAX - rng.below(3 * buffer as u64 + 2) as u32;
         }
-        CloseParams { sched, kind, buffer, max_streams, streams, prefill, producers, hold: *rng.pick(&[0, 0, 1, 2]), waker_churn: rng.chance(1, 4), delay: *rng.pick(&[0, 0, 0, 1, 3, 8, 20, 60]), late_drivers: rng.chance(1, 3) }
+        CloseParams { sched, kind, buffer, max_streams, streams, prefill, producers, hold: *rng.pick(&[0, 0, 1, 2]), waker_churn: rng.chance(1, 4), delay: *rng.pick(&[0, 0, 0, 1, 3, 8, 20, 60]), late_drivers: rng.chance(1, 3), pre_cancel: rng.chance(1, 4) }
     }
     fn sched<'a>(&self, p: &'a CloseParams) -> &'a SchedSpec {
         &p.sched
@@ -302,6 +316,11 @@ impl Scenario for CloseConc {
         if p.late_drivers {
             let mut q = p.clone();
             q.late_drivers = false;
+            out.push(q);
+        }
+        if p.pre_cancel {
+            let mut q = p.clone();
+            q.pre_cancel = false;
             out.push(q);
         }
         if p.sched.weak_cas > 0 || p.sched.stall > 0 {
